@@ -195,7 +195,7 @@ PROPS['C07'] = dict(
     passes=c07_passes,
     post=c07_post,
     level='fault_enumeration',
-    rule='case = (valid 1-4-d table, one of 31 mutation kinds with random parameters, one of 5 reader entry points; every third case also both CLI tools); '
+    rule='case = (valid 1-4-d table, one of 31 mutation kinds with random parameters (incl. data units of negative size), one of 5 reader entry points; every third case also both CLI tools, every second case also estimateMemory on the hostile file; one case in 40 is an untouched well-formed table of order 28-44 whose battery takes second derivatives); '
          'distinct_nontrivial counts distinct mutated byte strings; counters give accepted/rejected per mutation kind',
     assumptions=ASSUME_COMMON,
     require={'any': {'reads-failed': 500, 'reads-succeeded': 150, 'batteries-run': 100, 'reuse-after-failure-checks': 400, 'tool-runs:photospline-eval': 200,
@@ -228,6 +228,7 @@ PROPS['C08'] = dict(
     level='fault_enumeration',
     rule='case = (table of 1-5 dims whose coefficient data spans ~1,2,9,41,42,300 FITS blocks, 1/16 slice of its crash states or of its fault sequences); '
          'crash states = all operation prefixes + block/card boundary +-1 and random byte cuts inside each fwrite; fault sequences = every operation index x applicable fault kinds; '
+         'the syscall-level pass runs the unmodified writer as a child under strace fault injection (write/lseek/read/close/openat/unlink errors, SIGKILL), one table in four written to a .gz name, one in six with 1450 auxiliary keys; '
          'distinct_nontrivial counts distinct (table, state) and (table, op, fault) pairs',
     assumptions=ASSUME_COMMON + ['a crash leaves a prefix of the stdio operation stream on disk (no reordering below stdio)'],
     require={'any': {'crash-states': 500, 'crash-states-rejected': 300, 'faults-fired': 100, 'writes-reporting-failure': 80, 'realloc-faults-injected': 5, 'syscall-level:faults-fired': 80, 'syscall-level:crash-states': 15, 'syscall-level:writes-reporting-failure': 30}},
@@ -302,7 +303,7 @@ PROPS['C13'] = dict(
     passes=lambda tier, sc: [Pass('asan', 'h_fit.asan', 'C13', n(tier, 1500, 30000, sc), stall_s=300),
                              Pass('prod', 'h_fit.prod', 'C13', n(tier, 1500, 30000, sc), stall_s=300, env={'VF_RLIMIT_AS_MB': '6000'})],
     level='fault_enumeration',
-    rule='case = (valid base problem, 0-2 corruptions out of 21 kinds) fitted into an empty and into a populated table and through the C wrapper; '
+    rule='case = (valid base problem, 0-2 corruptions out of 27 kinds incl. non-finite knots, ill-posed monotonic tuples and negative / NaN smoothing strengths and weights) fitted into an empty and into a populated table and through the C wrapper; '
          'distinct_nontrivial counts distinct (case, corruption set) tuples',
     assumptions=ASSUME_COMMON,
     require={'any': {'tuples-must-reject': 500, 'tuples-may-complete': 200, 'fits-into-populated-table': 500, 'C-wrapper-calls': 300}},
